@@ -87,13 +87,13 @@ def _unary_rank(ctx: Ctx) -> int | None:
     return None
 
 
-def _pop_loop(sy: ast.FunctionDef) -> tuple[ast.While, ast.If | None]:
+def _pop_loop(sy: ast.FunctionDef):
     parents: dict[int, ast.AST] = {}
     for p in ast.walk(sy):
         for c in ast.iter_child_nodes(p):
             parents[id(c)] = p
     for n in walk_no_nested(sy):
-        if isinstance(n, ast.While) and "operator_stack[-1]" in unparse(n.test) and any(isinstance(c, ast.Compare) and isinstance(c.ops[0], (ast.LtE, ast.Lt, ast.GtE, ast.Gt)) for c in ast.walk(n.test)):
+        if isinstance(n, (ast.While, ast.If)) and "operator_stack[-1]" in unparse(n.test) and any(isinstance(c, ast.Compare) and isinstance(c.ops[0], (ast.LtE, ast.Lt, ast.GtE, ast.Gt)) for c in ast.walk(n.test)):
             par = parents.get(id(n))
             return n, par if isinstance(par, ast.If) else None
     raise AnalysisError("shunting_yard: precedence pop loop not found")
@@ -102,6 +102,8 @@ def _pop_loop(sy: ast.FunctionDef) -> tuple[ast.While, ast.If | None]:
 def r2_associativity(ctx: Ctx) -> None:
     sy = ctx.repo.func(EXPR, "shunting_yard")
     loop, par = _pop_loop(sy.node)
+    if not ctx.check(isinstance(loop, ast.While), "shunting_yard:pops-all", "every stacked operator that binds at least as tightly is popped (a loop); an `if` pops at most one: `10 - 2 * 3 - 1` regroups"):
+        return
     conj = loop.test.values if isinstance(loop.test, ast.BoolOp) and isinstance(loop.test.op, ast.And) else [loop.test]
     cmp_ok = False
     strictness = None
@@ -141,6 +143,26 @@ def r2_associativity(ctx: Ctx) -> None:
     ctx.check(len(rets) == 1 and unparse(rets[0].value) == "output_queue", "shunting_yard:returns", "returns the postfix queue")
     # unary/binary classification in the parser
     pe = ctx.repo.func(PSTATES, "_parse_expression")
+    parents = {}
+    for p_ in ast.walk(pe.node):
+        for ch in ast.iter_child_nodes(p_):
+            parents[id(ch)] = p_
+    for kind in ("UnaryOp", "BinOp", "Term", "Parenthesis"):
+        for c in calls_in(pe.node, kind):
+            # the construction is an unconditional statement of its arm: every token of that kind yields exactly one node
+            a = c
+            depth_ifs = 0
+            while id(a) in parents and parents[id(a)] is not pe.node:
+                child, a = a, parents[id(a)]
+                if isinstance(a, (ast.For, ast.While, ast.Try)):
+                    depth_ifs += 1
+                elif isinstance(a, ast.If):
+                    is_elif_link = child in a.orelse and len(a.orelse) == 1 and isinstance(a.orelse[0], ast.If)
+                    if not is_elif_link and child is not a.test:
+                        depth_ifs += 1
+            stmt_is_append = isinstance(parents.get(id(c)), ast.Call) and (call_name(parents[id(c)]) or "").endswith(".append")
+            ctx.count("expr_node_constructions")
+            ctx.check(depth_ifs <= (2 if kind == "BinOp" else 1) and stmt_is_append, f"_parse_expression:{kind} node", f"each {kind} token is appended once, unconditionally within its arm (nesting depth {depth_ifs})")
     for c in calls_in(pe.node, "UnaryOp"):
         ok = False
         for st in walk_no_nested(pe.node):
@@ -219,7 +241,9 @@ def r3_evaluation_dispatch(ctx: Ctx) -> None:
     if inv is None:
         ctx.fail("eval_expression[unary ~]", "no arm")
     else:
-        iarms, ielse = if_chain(inv[0]) if isinstance(inv[0], ast.If) else ([], [])
+        if not (len(inv) == 1 and isinstance(inv[0], ast.If)):
+            raise AnalysisError("eval_expression: the `~` arm is not a threshold if-chain; its widths cannot be read off")
+        iarms, ielse = if_chain(inv[0])
         widths = []
         for test, body in iarms:
             ok_t = isinstance(test, ast.Compare) and unparse(test.left) == f"{v}.bit_length()" and isinstance(test.ops[0], ast.LtE)
